@@ -713,6 +713,49 @@ func genXdr() string {
 		}
 	}
 	b.WriteString(strings.Join(rows, ",\n"))
+	b.WriteString("\n]\n\n")
+	b.WriteString("/-- every constant declared in nfstypes/nfs_types.go: (type, name, value), in file order -/\n")
+	b.WriteString("def consts : List (String × String × Nat) := [\n")
+	b.WriteString(strings.Join(genConstTable(), ",\n"))
 	b.WriteString("\n]\n\nend GoNfsd.Gen.Xdr\n")
 	return b.String()
+}
+
+// genConstTable lists the constants of nfstypes/nfs_types.go (enum values, sizes, program,
+// version and procedure numbers, access bits) as written in the source.
+func genConstTable() []string {
+	fset := token.NewFileSet()
+	f, err := parser.ParseFile(fset, filepath.Join(repo, "nfstypes", "nfs_types.go"), nil, 0)
+	if err != nil {
+		fail("consts: %v", err)
+	}
+	var rows []string
+	for _, d := range f.Decls {
+		gd, ok := d.(*ast.GenDecl)
+		if !ok || gd.Tok != token.CONST {
+			continue
+		}
+		for _, sp := range gd.Specs {
+			vs := sp.(*ast.ValueSpec)
+			typ := ""
+			if id, ok := vs.Type.(*ast.Ident); ok {
+				typ = id.Name
+			}
+			for i, n := range vs.Names {
+				if i >= len(vs.Values) {
+					fail("consts: %s: constant %s without a value", fset.Position(n.Pos()), n.Name)
+				}
+				bl, ok := vs.Values[i].(*ast.BasicLit)
+				if !ok || bl.Kind != token.INT {
+					fail("consts: %s: constant %s is not an integer literal", fset.Position(n.Pos()), n.Name)
+				}
+				v, err := strconv.ParseUint(bl.Value, 0, 64)
+				if err != nil {
+					fail("consts: %s: %v", fset.Position(n.Pos()), err)
+				}
+				rows = append(rows, fmt.Sprintf("  (%q, %q, %d)", typ, n.Name, v))
+			}
+		}
+	}
+	return rows
 }
